@@ -2,6 +2,7 @@
 import TaRs.Lemmas.Core.TrueRange
 import TaRs.Gen.TrueRange
 import TaRs.Lemmas.RsLemmas
+import TaRs.Lemmas.Total.TrueRange
 namespace TaRs.Gen.TrueRange
 open TaRs TaRs.Rs
 variable {F : Type} [Scalar F]
